@@ -108,12 +108,8 @@ def run(ctx):
         return
     quick = ctx.tier == "quick"
     terms, cases = [], []
-    runs = []
     cs = corpus_specs()
-    if cs:
-        runs.append(("corpus", "spec", cs, []))
-    runs.append(("main", "quick" if quick else "thorough", None, ["-vet=true"]))
-    timing = {}
+    runs = [("main", "quick" if quick else "thorough", cs or None, ["-vet=true"])]
     for tag, mode, specs, extra in runs:
         t, c, err, log = bl.run_farm(ctx, st["bin"], st["clibin"], st["repo"], tag, mode, specs, extra)
         if err:
